@@ -32,12 +32,23 @@ func (obj Symbol) Readably(b []byte, p *Printer) []byte {
 	}
 	for _, c := range []byte(obj) {
 		if needPipeMap[c] == 'x' {
-			b = append(b, '|')
-			b = append(b, p.caseName(string(obj))...)
-			return append(b, '|')
+			return obj.appendPiped(b, p)
 		}
 	}
 	return append(b, p.caseName(string(obj))...)
+}
+
+// appendPiped appends the symbol name between | characters. A | or \ in the
+// name is preceded by a \ so the reader takes it as part of the name.
+func (obj Symbol) appendPiped(b []byte, p *Printer) []byte {
+	b = append(b, '|')
+	for _, c := range []byte(p.caseName(string(obj))) {
+		if c == '|' || c == '\\' {
+			b = append(b, '\\')
+		}
+		b = append(b, c)
+	}
+	return append(b, '|')
 }
 
 // Simplify the Object into a string.
